@@ -425,6 +425,17 @@ def run(ctx):
             eng.margs = ["model", "persfirst"]
             eng.repaired.add("pers")
             ctx.log("_mod_register tests the personality first (F17-PERS repaired): model runs as `persfirst`")
+        # F17-TIE repaired (findings/C17.patch)?  misc/tie + rcmd/tie and the two equal-priority misc/alpha give
+        # the same list in both enumeration orders
+        def same_both_orders(files):
+            pc = dict(planned_cases(eng)[0], files=list(files))
+            a = eng.observe(eng.run(pc))["listed"]
+            b = eng.observe(eng.run(pc, order=list(reversed(files))))["listed"]
+            return a == b
+        if same_both_orders(["m26.so", "r05.so"]) and same_both_orders(["m01.so", "m19.so"]):
+            eng.margs.append("tiefix")
+            eng.repaired.add("tie")
+            ctx.log("ties are broken by type / file name (F17-TIE repaired): model runs as `tiefix`")
         dist["variant"] = " ".join(eng.margs)
         if getattr(ctx, "replay", None):
             cases = replay_cases(ctx, eng)
